@@ -626,6 +626,107 @@ def rule_r7(prog, res):
     res.floor('R7', 'placeholder argument lists', n, 3)
 
 
+# ------------------------------------------------------------------- R8
+def rule_r8(prog, res):
+    res.rule('R8', 'what the function produced or received is handed on '
+             'whatever its value: the prefetched first item of a generator '
+             'result is chained back unconditionally; the bare argument '
+             'object is always built from the fields; readers decide presence '
+             'by identity, not truthiness')
+    w = prog.cls('spyne.server.wsgi:WsgiApplication')
+    f = w.methods.get('handle_rpc')
+    n = 0
+    for a in walk_no_defs(f.node):
+        if isinstance(a, ast.Assign) and any(
+                unparse(t).endswith('.out_object') for t in a.targets) and \
+                any(isinstance(c, ast.Call) and call_name(c) == 'chain'
+                    for c in ast.walk(a.value)):
+            n += 1
+            atoms = guardspec.atoms_at(a, f.node)
+            fetched = {b_.targets[0].id for b_ in walk_no_defs(f.node)
+                       if isinstance(b_, ast.Assign) and len(b_.targets) == 1
+                       and isinstance(b_.targets[0], ast.Name) and isinstance(
+                           b_.value, ast.Call) and call_name(b_.value) ==
+                       'next'} - {'g'}
+            import re as _re
+            extra = [(t, p_) for t, p_ in atoms if any(
+                _re.search(r'\b%s\b' % _re.escape(v), t) for v in fetched)
+                and not _re.match(r'^\w+ is (not )?_*[A-Za-z]\w*$', t)
+                or any(t == '%s is None' % v for v in fetched)]
+            where = '%s:%d' % (f.module.relpath, a.lineno)
+            res.ob('R8', where, 'handle_rpc chains the prefetched item back '
+                   'under %s' % [t for t, _ in atoms],
+                   'VIOLATED' if extra else 'ok')
+            for t, p_ in extra[:1]:
+                res.finding('R8', 'WsgiApplication.handle_rpc|prefetch-'
+                            'conditional', where, 'the first item of a '
+                            'generator result is put back only under "%s%s": '
+                            'an item that fails the test (None) is lost on '
+                            'the wire while NullServer returns the whole '
+                            'sequence' % ('' if p_ else 'not ', t))
+    res.floor('R8', 'generator prefetch sites', n, 1)
+    # an exhausted generator is an empty result, not a crash
+    for c in calls_in(f.node):
+        if call_name(c) == 'next' and isinstance(c.func, ast.Name) and \
+                len(c.args) == 1 and unparse(c.args[0]) == 'g':
+            handled = False
+            p_ = c
+            while p_ is not None and p_ is not f.node:
+                par = getattr(p_, '_parent', None)
+                if isinstance(par, ast.Try) and p_ in par.body and any(
+                        h.type is None or 'StopIteration' in unparse(h.type)
+                        or unparse(h.type) in ('Exception', 'BaseException')
+                        for h in par.handlers):
+                    handled = True
+                p_ = par
+            where = '%s:%d' % (f.module.relpath, c.lineno)
+            res.ob('R8', where, 'handle_rpc prefetches with next(g); '
+                   'StopIteration %s' % ('handled' if handled else
+                                         'NOT handled'),
+                   'ok' if handled else 'VIOLATED')
+            if not handled:
+                res.finding('R8', 'WsgiApplication.handle_rpc|prefetch-'
+                            'exhausted', where, 'next(g) on a generator '
+                            'result that yields nothing raises StopIteration '
+                            'out of the WSGI callable; NullServer returns '
+                            'the empty sequence for the same call')
+    # next(g, default): a default doubles as a value
+    for c in calls_in(f.node):
+        if call_name(c) == 'next' and isinstance(c.func, ast.Name) and \
+                len(c.args) == 2 and isinstance(c.args[1], ast.Constant):
+            res.ob('R8', '%s:%d' % (f.module.relpath, c.lineno),
+                   'handle_rpc: %s' % unparse(c), 'VIOLATED')
+            res.finding('R8', 'WsgiApplication.handle_rpc|prefetch-default',
+                        '%s:%d' % (f.module.relpath, c.lineno),
+                        '%s uses a default as the "nothing yielded" marker: '
+                        'the same value yielded by the function cannot be '
+                        'told from an exhausted generator' % unparse(c))
+    # NullServer: bare argument object
+    fc = prog.cls('spyne.server.null:_FunctionCall')
+    g = fc.methods.get('__call__')
+    k = 0
+    for a in walk_no_defs(g.node):
+        if isinstance(a, ast.Assign) and any(
+                unparse(t) == 'ctx.in_object' for t in a.targets) and \
+                'get_serialization_instance' in unparse(a.value):
+            k += 1
+            guardspec.check(res, 'R8', g, a, 'the bare argument object',
+                            allowed=[('ctx.descriptor.body_style == '
+                                      'BODY_STYLE_BARE', True),
+                                     ('ctx.descriptor.body_style is '
+                                      'BODY_STYLE_BARE', True)],
+                            key='_FunctionCall.__call__|bare-instance')
+    res.floor('R8', 'bare argument object constructions', k, 1)
+    # readers: presence by identity
+    h = prog.cls('spyne.protocol.dictdoc.hier:HierDictDocument')
+    guardspec.presence_rule(res, 'R8', [h.methods['_from_dict_value'],
+                                        h.methods['_doc_to_object']],
+                            ('inst', 'doc'),
+                            'an empty list or object sent by the client is '
+                            'delivered as None although NullServer passes '
+                            'the empty value itself')
+
+
 def run(prog, res, tier):
     res.run_rule(rule_r1, prog, res)
     res.run_rule(rule_r2, prog, res)
@@ -634,6 +735,7 @@ def run(prog, res, tier):
     res.run_rule(rule_r5, prog, res)
     res.run_rule(rule_r6, prog, res)
     res.run_rule(rule_r7, prog, res)
+    res.run_rule(rule_r8, prog, res)
 
 
 _N = 'spyne/server/null.py'
@@ -641,6 +743,36 @@ _A = 'spyne/application.py'
 _D = 'spyne/descriptor.py'
 
 MUTANTS = [
+    Mutant('prefetch-with-unique-sentinel', 'R8', 'silent',
+           'spyne/server/wsgi.py',
+           in_func('WsgiApplication.handle_rpc',
+                   r"            try:\n                first_obj = next\(g\)"
+                   r".*?            else:\n                p_ctx\.out_object "
+                   r"= \( chain\(\(first_obj,\), g\), \)\n",
+                   "            first_obj = next(g, _NOTHING)\n            if "
+                   "first_obj is not _NOTHING:\n                p_ctx."
+                   "out_object = ( chain((first_obj,), g), )\n", regex=True),
+           None),
+    Mutant('prefetched-none-dropped', 'R8', 'fire', 'spyne/server/wsgi.py',
+           in_func('WsgiApplication.handle_rpc',
+                   "                p_ctx.out_object = ( chain((first_obj,),"
+                   " g), )\n",
+                   "                if first_obj is not None:\n"
+                   "                    p_ctx.out_object = ( chain((first_obj,"
+                   "), g), )\n"), 'prefetch-conditional'),
+    Mutant('prefetch-stopiteration-unhandled', 'R8', 'fire',
+           'spyne/server/wsgi.py',
+           in_func('WsgiApplication.handle_rpc',
+                   "            except StopIteration:",
+                   "            except KeyError:"), 'prefetch-exhausted'),
+    Mutant('empty-complex-value-read-as-none', 'R8', 'fire',
+           'spyne/protocol/dictdoc/hier.py',
+           in_func('HierDictDocument._from_dict_value',
+                   "                retval = self._doc_to_object(ctx, cls, "
+                   "inst, validator)\n\n            else:",
+                   "                retval = None\n                if inst:\n"
+                   "                    retval = self._doc_to_object(ctx, cls,"
+                   " inst, validator)\n\n            else:"), 'truthiness'),
     Mutant('childless-body-fast-path', 'R7', 'fire', 'spyne/protocol/xml.py',
            in_func('XmlDocument.deserialize',
                    "if ctx.in_body_doc is None:",
